@@ -627,7 +627,7 @@ def reader_branch(bk, body, handler, bfns):
                             raise Gap("parse_dataset/%s: column %s tested twice" % (bk, m.group(1)))
                         name_to_idx[m.group(1)] = m2.group(1)
             continue
-        if isinstance(st, ast.For) and re.fullmatch(r"range\(0, d\.shape\[0\]\)", src(st.iter)):
+        if isinstance(st, ast.For) and re.fullmatch(r"range\((0, )?d\.shape\[0\]\)", src(st.iter)):   # range(0, n) = range(n)
             rowvar = rowvar or "row"
             # the location branch calls the handler with the reads inline
             if bk == "currPopulation":
@@ -637,6 +637,10 @@ def reader_branch(bk, body, handler, bfns):
             else:
                 walk_row(st.body)
             continue
+        if isinstance(st, ast.If) and not st.orelse and isinstance(st.test, ast.BoolOp) and isinstance(st.test.op, ast.And) \
+                and len(st.test.values) == 2 and re.fullmatch(r"(index\w+) < 0", src(st.test.values[0])):
+            # `if A and B: S` (no else) is `if A: if B: S`: `and` evaluates B only when A holds, exactly like the nesting
+            st = ast.If(test=st.test.values[0], body=[ast.If(test=st.test.values[1], body=st.body, orelse=[])], orelse=[])
         if isinstance(st, ast.If):
             m = re.fullmatch(r"(index\w+) < 0", src(st.test))
             if m and bk == "currPopulation":
